@@ -64,10 +64,10 @@ CATALOGUE = [
      "        TransactionType.FEE,\n        TransactionType.LOST,\n        TransactionType.MOVE,\n",
      "        TransactionType.FEE,\n        TransactionType.MOVE,\n",
      "LOST removed from the US tax report type map"),
-    ("m16-open-positions-ge", "C16", R + "plugin/report/open_positions.py",
-     "                if balance_set.final_balance > ZERO:\n",
-     "                if balance_set.final_balance > ZERO and balance_set.acquired_balance > ZERO:\n",
-     "accounts that only hold transferred-in coins are dropped from open positions: KeyError / division by zero for assets held only on receiving accounts"),
+    ("m16-revert-f9", "C16", R + "plugin/report/open_positions.py",
+     "        for asset in [asset for asset in asset_cost_bases if asset not in asset_crypto_balance_holder]:\n            total_cost_basis -= asset_cost_bases.pop(asset)\n",
+     "",
+     "open_positions KeyError for assets with unsold-looking lots and no positive balance reintroduced"),
     ("m16-template-suffix", "C16", R + "plugin/report/abstract_ods_generator.py",
      "        language_suffix = f\"_{generation_language}\" if country else \"\"\n",
      "        language_suffix = f\"_{generation_language.split('_')[0]}\" if country else \"\"\n",
